@@ -682,7 +682,9 @@ def build_gfa2(r, opts=None):
                     t2 = choice(r, "iZ")
                     fields.append("%s:%s:%s" % (n_, t2, "7" if t2 == "i" else "w"))
                 else:
-                    fields.append(choice(r, ["xx:B:c,300", "xx:i:1x", "xx:J:{bad", "xx:H:0G", "xx:f:1.2.3", "xx:A:ab", "xx:B:q,3"]))
+                    fields.append(choice(r, ["xx:B:c,300", "xx:i:1x", "xx:J:{bad", "xx:H:0G", "xx:f:1.2.3", "xx:A:ab", "xx:B:q,3",
+                                             # (not numbers of the grammar, although int() / float() read them)
+                                             "xx:i:1_0", "xx:i: 5", "xx:f:inf", "xx:f:1.", "xx:f:1_0.5", "xx:f:nan", "xx:i:\u0663"]))
             lines.append([choice(r, CUSTOM_TYPES), fields, tg])
             if o.get("twin_custom") and fair(r, o["twin_custom"]):
                 lines.append([lines[-1][0], list(fields), [list(t) for t in tg]])  # the same custom record once more
